@@ -37,6 +37,8 @@ func NewClientWorker(parentLogger logger.Logger, args base.ChunkConsumerArgs, me
 		client:  &http.Client{Timeout: cfg.HTTPTimeout},
 		request: rq,
 	}
+	// a redirect is not an acknowledgement: net/http would follow 301/302/303 with a body-less GET and report that answer
+	worker.client.CheckRedirect = func(*http.Request, []*http.Request) error { return http.ErrUseLastResponse }
 
 	return baseoutput.NewClientWorker(
 		clientLogger,
